@@ -343,7 +343,14 @@ class Cost:
 def _is_depth(e):
     """index_levels + 1 (as usize), possibly through a local"""
     c_ = checked(e)
-    return bool(c_ and c_[0] == "Add" and const_val(c_[2]) == 1 and is_self_field(strip_casts(c_[1]), "index_levels"))
+    if not (c_ and c_[0] == "Add" and const_val(c_[2]) == 1 and is_self_field(strip_casts(c_[1]), "index_levels")):
+        return False
+    # the `+ 1` is done on the widened value: `usize::from(index_levels + 1)` adds in u8 and overflows at 255 levels
+    w = c_[1]
+    while w.k in ("ref", "deref"):
+        w = w.a[0]
+    return (w.k == "cast" and w.x.get("to") in ("usize", "u64", "u32", "u16", "isize", "i64", "i32")) or \
+        (w.k == "call" and w.x["path"].startswith("std::convert::num::<impl std::convert::From<u8> for"))
 
 
 def r34_cost(ck, F):
